@@ -93,12 +93,22 @@ Twins == UNION { { N("Sum", << TwinCtx(i, pr[1]), TwinCtx(i, pr[2]) >>),
                    Call(gg, << TwinCtx(i, pr[1]), TwinCtx(i, pr[2]) >>) }
                  : i \in 1..6, pr \in TwinPairs }
 
+\* multiplicative nodes whose text begins and ends with a parenthesis although the node as a whole is
+\* not parenthesised - (x + y) // (y + 2) - as operands of another multiplicative node, where the
+\* grouping decides the value
+ParenEdge == { N("Sum", << x, y >>), N("Sum", << y, KI(2) >>), KI(-1), B("LShift", x, KI(1)) }
+MulKinds == {"Quotient", "FloorDiv", "Remainder"}
+Edged == { B(k, s1, s2) : k \in MulKinds, s1 \in ParenEdge, s2 \in ParenEdge }
+         \cup { N("Product", << s1, s2 >>) : s1 \in ParenEdge, s2 \in ParenEdge }
+EdgedRoots == UNION { { N("Product", << z, m >>), N("Product", << m, z >>) }
+                      \cup { B(k, z, m) : k \in MulKinds } \cup { B(k, m, z) : k \in MulKinds } : m \in Edged }
+
 Unset == << "?" >>
 Listings == { << >>, << "x" >>, << "y" >>, << "w" >>, << "x", "y" >>, << "y", "x" >>,
               << "w", "x" >>, << "z", "w" >> }
 ListingsQ == { << >>, << "y" >>, << "y", "x" >>, << "w", "x" >> }
 
-Init == tree \in (Roots \cup Twins) /\ listed = Unset
+Init == tree \in (Roots \cup Twins \cup EdgedRoots) /\ listed = Unset
 Next == \/ /\ NHoles(tree) > 0
            /\ \E s \in PoolFor(FirstHoleTy(tree)) : tree' = FillFirst(tree, s)
            /\ UNCHANGED listed
